@@ -31,7 +31,7 @@ PROPS = {
         "theorems": ["next_forgets_inner", "undefined_reads_default", "implicit_array_shape", "implicit_array_bounds", "fresh_cells_default",
                      "for_enters_body", "next_uses_stored_again", "next_uses_stored_done", "next_uses_stored", "read_line_order"],
         "open": ["refines: transcript (M.run (compile p)) = transcript (R.run p) for every well-formed program (needs a reference semantics in Lean and a per-statement simulation)"],
-        "slices": ["c03"],
+        "slices": ["c03", "walk"],
         "level_text": "Machine-checked theorems (Lean 4) about the model for the individual rules the property names (FOR entry, NEXT stepping with the stored limit/step, loop forgetting, DATA line order, defaults, implicit array bounds). The whole-program refinement against a reference semantics is NOT proved; the reference interpreter is the harness's independent interpreter over syntax trees (verif/harness/src/refint.rs) and is used as the oracle: grammar-generated structured programs are compiled to numbered text, run on the implementation, on the model (correspondence) and on the reference interpreter, comparing printed output and (error kind, line).",
         "level_note": "PARTIAL proof; the reference interpreter is Rust code in the harness, not a Lean spec. Known finding KF-ELSE-RESUME (THEN GOSUB ... ELSE) is generated at a low rate and reported as KNOWN-FINDING.",
     },
@@ -39,7 +39,7 @@ PROPS = {
         "what": "program store = finite map + ordered key set: both indexes agree after every edit history (invariant), an edit writes exactly its key (last writer wins, bare number deletes, failed tokenization changes nothing), LIST = stored lines ascending, `after` = least greater key for every n, RUN order = keys ascending, edits to different lines commute",
         "theorems": ["wf_empty", "get_set", "wf_set", "wf_reachable", "store_refines", "set_comm", "list_sorted", "after_least", "run_order", "submit_numbered", "submit_failed"],
         "open": ["lineno_parse: parseLineNumber accepts exactly ASCII-blank-prefixed digit runs with value < 2^64 (covered by the correspondence slice's number pool only)"],
-        "slices": ["c04"],
+        "slices": ["c04", "walk"],
         "level_text": "Machine-checked theorems (Lean 4) about the model of program_lines.rs / Interpreter::start_evaluating for ALL edit histories: the two indexes (token map, ordered set) agree as an inductive invariant, refinement of the store to a finite map, LIST/after/first/RUN order over the ordered index with no bound on line numbers, commutation of edits to distinct lines. Correspondence: random edit histories over a line-number pool incl. 0, leading zeros and the u64 extremes, interleaved with LIST and RUN, implementation vs model (replies and full state snapshot incl. both indexes) vs a BTreeMap oracle.",
         "level_note": "Trusted: Lean kernel; the hand-written model of ProgramLines/Program (HashMap and BTreeSet as lists) validated by sampling; u64 range of line numbers enters only through parse_line_number (modelled, value < 2^64) — `after` is proved over unbounded naturals.",
     },
@@ -68,7 +68,7 @@ PROPS = {
         "what": "failures of host calls are values after which the interpreter is idle and locatable; reply/break/seed cannot fail; protocol assertions; the nesting counter is balanced on every path and refuses at the cap 48 (bounded native depth)",
         "theorems": ["start_error_is_value", "cont_error_is_value", "error_located", "reply_total", "break_total", "seed_total", "start_assert", "nesting_limit", "nested_refuses_at_cap", "nested_balanced"],
         "open": ["WF invariant (every stored location names an existing line; indexes agree; caps) preserved by every protocol-respecting call", "no_panic: every modelled panic site unreachable under WF", "caret_total", "iteration budgets never run out (termination in the model)"],
-        "slices": ["c01"],
+        "slices": ["c01", "walk"],
         "level_text": "Machine-checked theorems (Lean 4), for every state/line/reply/seed: an error of start/continue is a value after which the state is Idle and carries a location; provide_input, break and randomize cannot fail; nested evaluation restores the nesting counter on both the Ok and the Err path and refuses at the extracted cap 48, which bounds native recursion depth by a constant. The global no-panic invariant over arbitrary call sequences is NOT yet proved; there the check rests on the correspondence slice (state-aware random protocol walks with boundary lines, 30..1000-deep nesting, full state snapshots and caret rendering compared between implementation and model, where every Rust panic site is an explicit value) and on the implementation oracle (no panic / abort, Idle after error).",
         "level_note": "PARTIAL proof. Trusted: Lean kernel; hand-written model validated by sampling; bytes of native stack per nesting level are measured, not proved (cap 48 x ~15 KB debug); allocation failure outside the model.",
     },
@@ -109,7 +109,7 @@ PROPS = {
         "what": "break records the interrupted location as breakpoint and keeps the stack; CONT restores the cursor; break followed by CONT's restore is the identity on everything the program observes",
         "theorems": ["break_records", "cont_restores", "break_cont"],
         "open": ["lift over whole runs (transcript equality for any set of break points)", "inspect_pure", "assign_at_stop"],
-        "slices": ["c07"],
+        "slices": ["c07", "walk"],
         "level_text": "Machine-checked theorems (Lean 4), for every state: break at a numbered location then CONT's restore gives back exactly the interrupted state except the BREAK record, the dead immediate line and the host state. The lift to whole runs and the inspection / assignment clauses are not yet proved; for them the check rests on the correspondence slice and the metamorphic oracle on the implementation (uninterrupted run vs run with host breaks at random turn boundaries + side-effect-free inspection incl. failing FN calls + CONT; assignment at STOP vs assignment in place).",
         "level_note": "PARTIAL proof. Known finding KF-ELSE-RESUME (THEN STOP ... ELSE) recorded in known-findings.json.",
     },
@@ -117,7 +117,7 @@ PROPS = {
         "what": "INPUT with no pending reply rewinds onto the INPUT token and awaits input, changing nothing else; the reply is parsed by the DATA item parser; text to a numeric variable is the REENTER case; a suitable item is storable",
         "theorems": ["find_input", "input_suspend", "reply_parse", "text_to_numeric", "item_suits"],
         "open": ["input_resume_ok (turn with a suitable reply = assignment, EXTRA IGNORED iff surplus)", "input_reenter (state unchanged but REENTER)", "placement independence (THEN/ELSE/loop/subroutine)"],
-        "slices": ["c08"],
+        "slices": ["c08", "walk"],
         "level_text": "Machine-checked theorems (Lean 4), for every state and token list: reaching INPUT without a reply yields AwaitingInput with the cursor back on the INPUT token and nothing else changed; the reply is read by the DATA parser; coercion cases. Resume/REENTER turn-level theorems not yet proved; the check rests for them on the correspondence slice (9 placements x numeric/string target x 21 reply texts, snapshots before/after each reply) and the oracle (REENTER / EXTRA IGNORED records, state equality across a REENTER).",
         "level_note": "PARTIAL proof. Known finding KF-ELSE-RESUME (THEN INPUT ... ELSE) recorded in known-findings.json and exercised by the slice.",
     },
@@ -133,7 +133,7 @@ PROPS = {
         "what": "the RUN command cannot distinguish a state with arbitrary session history from a fresh interpreter holding the same program, generator state and flags",
         "theorems": ["reset_forgets", "run_clean", "run_resets_everything"],
         "open": ["nesting = 0 at every call boundary as a reachable-state invariant (hypothesis of run_clean; proved per nested evaluation in C01.nested_balanced)"],
-        "slices": ["c10"],
+        "slices": ["c10", "walk"],
         "level_text": "Machine-checked theorem (Lean 4): for EVERY idle state sigma (any variables, arrays, loops, stack, functions, data cursor, breakpoint, location, immediate line, pending reply) whose nesting counter is 0, start_evaluating(RUN) on sigma equals start_evaluating(RUN) on a fresh interpreter with the same lines, rng state, flags and untaken output - same outcome and same resulting state, hence the same future. Correspondence: random histories then RUN vs fresh+RUN, implementation vs model, with transcript and final-snapshot equality as oracle on the implementation.",
         "level_note": "Trusted: Lean kernel; hand-written model validated by sampling. The hypothesis nesting = 0 is an invariant of call boundaries shown per nested evaluation (C01) but not yet lifted to all reachable states.",
     },
@@ -141,7 +141,7 @@ PROPS = {
         "what": "a successful edit yields exactly the state with breakpoint, stack, loops, functions, data cursor cleared and variables/arrays kept; the probes CONT/RETURN/NEXT/READ/FN then behave as specified; a rejected edit changes none of them",
         "theorems": ["edit_result", "edit_clears", "cont_after_edit", "return_without_gosub", "next_without_for", "read_restarts", "function_gone", "failed_edit_inert"],
         "open": [],
-        "slices": ["c11"],
+        "slices": ["c11", "walk"],
         "level_text": "Machine-checked theorems (Lean 4), for every state at which a line can be entered: the exact post-edit state; CONT gives CAN'T CONTINUE, RETURN gives RETURN WITHOUT GOSUB, NEXT gives NEXT WITHOUT FOR, READ rebuilds the cursor from the edited program, a former function is no function; a rejected edit leaves breakpoint, loops, functions, data cursor, lines, variables, arrays (and the stack when a breakpoint is pending) untouched. Correspondence: programs suspended at every kind of point x 5 edit kinds x 6 probes, implementation vs model incl. snapshots, with probe outcomes as oracle.",
         "level_note": "Trusted: Lean kernel; hand-written model validated by sampling.",
     },
@@ -167,7 +167,7 @@ PROPS = {
         "theorems": ["caps", "gosub_cap", "call_cap", "dimSizes_spec", "create_spec", "setVar_typed",
                      "removeLoop_spec", "removeLoop_length_lt", "removeLoop_nodup", "for_cap", "next_cap"],
         "open": ["arraySet / bindArgs typing", "lift to every reachable state of every session (WF invariant)"],
-        "slices": ["c16"],
+        "slices": ["c16", "walk"],
         "level_text": "Machine-checked theorems (Lean 4), for every state: the operation-level cap and typing facts at the only sites where the subroutine stack, the array table and the variable table grow. The lift to all reachable states of every session is not yet proved; there the check rests on the correspondence slice (full state snapshot after EVERY host call of targeted cap / re-entry / typing programs and random walks, implementation vs model) and on the snapshot oracle (frames <= 32, loops <= 32 distinct, cells = prod dims <= 10000, kinds obey suffixes).",
         "level_note": "PARTIAL proof. Hook: verif-hooks snapshot.",
     },
@@ -175,7 +175,7 @@ PROPS = {
         "what": "the three places where flags are read only append Warning/Trace records, are the identity when the flag is off, and fire exactly when specified",
         "theorems": ["warn_effect", "array_warning_iff", "trace_effect"],
         "open": ["flags_transparent: the whole evaluator commutes with erasing flags and filtering the queue", "scalar warn_iff at term level", "trace_is_path"],
-        "slices": ["c17", "c09"],
+        "slices": ["c17", "c09", "walk"],
         "level_text": "Machine-checked theorems (Lean 4), for every state: warn / the undeclared-array warning / the trace step change nothing but the output queue, add exactly one record of their kind exactly under the stated condition, and are the identity with the flag off. The whole-evaluator transparency theorem is not yet proved; the check rests for it on the correspondence slice and the four-configuration oracle on the implementation (filtered transcripts and final snapshots equal across (w,t) in {0,1}^2, flags set via API fields or TRACE/NOTRACE).",
         "level_note": "PARTIAL proof.",
     },
